@@ -6,10 +6,7 @@ import IRModel
 -/
 open IRModel
 
-def parseInt? (s : String) : Option Int := s.toInt?
-
-def parseInts (ws : List String) : Option (List Int) := ws.mapM parseInt?
-
+def parseInts (ws : List String) : Option (List Int) := ws.mapM (·.toInt?)
 def showInts (l : List Int) : String := " ".intercalate (l.map toString)
 
 /-- nested lists are written `a b | c d |  | e` (frames separated by `|`) -/
@@ -45,42 +42,116 @@ def iwAll (v n : Nat) (pairs : Option (List (Nat × Nat))) : String :=
         s!"{showL sy}>{back.val}/{back.n}"
   s!"{x.val}/{x.n} it={showL x.iter} bits={showL x.bits} rev={x.reverseBits.val} inv={x.invertBits.val} pop={x.numOneBits} sl={" ".intercalate slices} sy={" ".intercalate syms}"
 
-def step (line : String) : String :=
+/-! ### session state (dispatcher with scripted decoders, …) -/
+
+open Dispatcher DispatchScript in
+structure Sess where
+  disp : Dispatcher.St DispatchScript.ScriptSt := ⟨none, none, false, ⟨[]⟩⟩
+
+open Dispatcher DispatchScript Match
+
+def showCode (c : Code) : String := s!"{c.dec}:{c.key}"
+def showOpt (c : Option Code) : String := match c with | some c => showCode c | none => "-"
+
+def parseErr : String → Option Err
+  | "decode" => some .decode | "rli" => some .repeatLeadIn | "rlo" => some .repeatLeadOut
+  | "rte" => some .repeatTimeout | "leak" => some .leak | _ => none
+
+def dispState (st : Dispatcher.St ScriptSt) : String :=
+  s!"last={showOpt st.last} lastdec={match st.lastDec with | some j => toString j | none => "-"}"
+
+def setDec (s : ScriptSt) (i : Nat) (f : SDec → SDec) : ScriptSt :=
+  { s with decs := s.decs.mapIdx (fun j d => if j = i then f d else d) }
+
+def step (ss : Sess) (line : String) : Sess × String :=
   match (line.trimAscii.toString.splitOn " ").filter (· ≠ "") with
   | "mce" :: ws =>
     match parseInts ws with
-    | some l => "ok " ++ showInts (Mce.buildMceRlc l)
-    | none => "bad-op"
+    | some l => (ss, "ok " ++ showInts (Mce.buildMceRlc l))
+    | none => (ss, "bad-op")
   | "mce_nested" :: ws =>
     match (splitBar ws).mapM parseInts with
     | some l =>
       let r := Mce.rlcToMceNested l
-      "ok " ++ showNested r.result ++ " ; arg-after " ++ showNested r.argAfter ++ " ; fresh " ++ toString r.fresh
-    | none => "bad-op"
+      (ss, "ok " ++ showNested r.result ++ " ; arg-after " ++ showNested r.argAfter ++ " ; fresh " ++ toString r.fresh)
+    | none => (ss, "bad-op")
   | "mce_flat" :: ws =>
     match parseInts ws with
     | some l =>
       let r := Mce.rlcToMceFlat l
-      "ok " ++ showInts r.result ++ " ; arg-after " ++ showInts r.argAfter ++ " ; fresh " ++ toString r.fresh
-    | none => "bad-op"
+      (ss, "ok " ++ showInts r.result ++ " ; arg-after " ++ showInts r.argAfter ++ " ; fresh " ++ toString r.fresh)
+    | none => (ss, "bad-op")
   | "iwall" :: v :: n :: rest =>
     match v.toNat?, n.toNat?, rest.mapM (·.toNat?) with
     | some v, some n, some r =>
-      if r.isEmpty then iwAll v n none
+      if r.isEmpty then (ss, iwAll v n none)
       else
         let rec pr : List Nat → List (Nat × Nat)
           | a :: b :: t => (a, b) :: pr t
           | _ => []
-        iwAll v n (some (pr r))
-    | _, _, _ => "bad-op"
-  | _ => "bad-op"
+        (ss, iwAll v n (some (pr r)))
+    | _, _, _ => (ss, "bad-op")
+  | ["match", tn, td, v, e] =>
+    match tn.toNat?, td.toNat?, v.toInt?, e.toInt? with
+    | some tn, some td, some v, some e =>
+      let w := window e ⟨tn, td⟩
+      (ss, s!"{isMatch ⟨tn, td⟩ v e} {w.1} {w.2}")
+    | _, _, _, _ => (ss, "bad-op")
+  -- dispatcher with scripted decoders
+  | ["disp_new"] => ({ ss with disp := ⟨none, none, false, ⟨[]⟩⟩ }, "ok")
+  | ["disp_dec", freq, tn, td, en] =>
+    match freq.toNat?, tn.toNat?, td.toNat?, en.toNat? with
+    | some fq, some tn, some td, some en =>
+      let d : SDec := { freq := fq, ftol := ⟨tn, td⟩, enabled := en != 0, beh := [] }
+      ({ ss with disp := { ss.disp with ds := { ss.disp.ds with decs := ss.disp.ds.decs ++ [d] } } }, "ok")
+    | _, _, _, _ => (ss, "bad-op")
+  | "disp_beh" :: i :: fid :: b :: rest =>
+    match i.toNat?, fid.toInt? with
+    | some i, some fid =>
+      let beh : Option Beh := match b, rest with
+        | "ok", [k] => k.toNat?.map Beh.ok
+        | e, [] => (parseErr e).map Beh.err
+        | _, _ => none
+      match beh with
+      | some beh =>
+        ({ ss with disp := { ss.disp with ds := setDec ss.disp.ds i (fun d => { d with beh := (fid, beh) :: d.beh.filter (fun p => p.1 != fid) }) } }, "ok")
+      | none => (ss, "bad-op")
+    | _, _ => (ss, "bad-op")
+  | ["disp_enable", i, b] =>
+    match i.toNat?, b.toNat? with
+    | some i, some b =>
+      ({ ss with disp := { ss.disp with ds := setDec ss.disp.ds i (fun d => { d with enabled := b != 0 }) } }, "ok")
+    | _, _ => (ss, "bad-op")
+  | ["disp_ftol", i, tn, td] =>
+    match i.toNat?, tn.toNat?, td.toNat? with
+    | some i, some tn, some td =>
+      ({ ss with disp := { ss.disp with ds := setDec ss.disp.ds i (fun d => { d with ftol := ⟨tn, td⟩ }) } }, "ok")
+    | _, _, _ => (ss, "bad-op")
+  | ["disp_decode", fid, f] =>
+    match fid.toInt?, f.toNat? with
+    | some fid, some f =>
+      let D := worldOf ss.disp.ds
+      let (r, st', o) := Dispatcher.decodeInner D ss.disp [fid] f
+      let rs := match r with
+        | .none => "None" | .true_ => "True" | .code c => "code " ++ showCode c | .raised => "raised"
+      let cbs := " ".intercalate (o.map fun | .callback c => showCode c)
+      ({ ss with disp := st' }, s!"{rs} ; cb {cbs} ; {dispState st'}")
+    | _, _ => (ss, "bad-op")
+  | ["disp_release"] =>
+    match ss.disp.last with
+    | some c =>
+      let st' := Dispatcher.release ss.disp c
+      ({ ss with disp := st' }, s!"ok ; {dispState st'}")
+    | none => (ss, s!"ok ; {dispState ss.disp}")
+  | _ => (ss, "bad-op")
 
-partial def loop (h : IO.FS.Stream) (out : IO.FS.Stream) : IO Unit := do
+partial def loop (h : IO.FS.Stream) (out : IO.FS.Stream) (ss : Sess) : IO Unit := do
   let line ← h.getLine
   if line.isEmpty then return ()
-  out.putStrLn (step line)
-  loop h out
+  let (ss', o) := step ss line
+  out.putStrLn o
+  loop h out ss'
 
 def main : IO Unit := do
   let out ← IO.getStdout
-  loop (← IO.getStdin) out
+  loop (← IO.getStdin) out {}
